@@ -299,6 +299,15 @@ fn cli_family(run: &Run, n: usize) {
         // guardable; an annotated item inside such a module has no target_os predicate of its own and is always kept
         let cfg_mod = format!("{}pub mod cfg_mod {{\n    #[typeshare]\n    pub struct InsideCfgMod {{ pub y: u8 }}\n}}\n", attrs_src(&c.attrs, false));
         cli::write_tree(&tree, &[("c1/src/lib.rs".into(), format!("{}\n#[typeshare]\npub struct AlwaysThere {{ pub x: u8 }}\n{}", if c.level == Level::File { String::new() } else { node_src(0, c.level, &c.attrs) }, cfg_mod).into_bytes()), ("c1/src/guarded_file.rs".into(), if c.level == Level::File { node_src(0, c.level, &c.attrs).into_bytes() } else { b"// nothing\n".to_vec() })]);
+        // a third of the field-level cases: the guarded field has a type typeshare cannot translate. A field the target
+        // list compiles out must simply be left out; nothing about it may make the run fail
+        let untranslatable = k % 3 == 0 && matches!(c.level, Level::Field | Level::VariantField) && !keep(&c.attrs, &c.targets);
+        if untranslatable {
+            let lib = tree.join("c1/src/lib.rs");
+            let text = std::fs::read_to_string(&lib).unwrap_or_default();
+            let wide = ["guarded: u64", "guarded: (u8, String)", "guarded: usize", "guarded: i64"][(k / 3) % 4];
+            std::fs::write(&lib, text.replace("pub guarded: u8", &format!("pub {wide}")).replace(" guarded: u8", &format!(" {wide}"))).unwrap();
+        }
         let folder = k % 2 == 1;
         let out = if folder { root.join("outdir").join("c1.ts") } else { root.join("out.ts") };
         if folder {
@@ -315,7 +324,16 @@ fn cli_family(run: &Run, n: usize) {
         run.count_eval(1);
         if !r.ok() {
             run.label(&format!("cli/exit={:?}", r.code));
+            if untranslatable && !r.timed_out && !r.panicked() {
+                let v = Violation::new(format!("cli/{:?}/compiled-out-field-still-makes-the-run-fail", c.level), format!("level {:?}, targets {:?}: the guarded field is compiled out by the target list, yet the run fails (exit {:?}) over its type: {}", c.level, c.targets, r.code, r.stderr.lines().rev().take(2).collect::<Vec<_>>().join(" | ")));
+                for v in run.triage(vec![v], true) {
+                    run.record_violation("c13-sampled", &v, serde_json::to_value(c).unwrap(), json!({"source": std::fs::read_to_string(tree.join("c1/src/lib.rs")).unwrap_or_default(), "targets": c.targets, "args": args2}));
+                }
+            }
             continue;
+        }
+        if untranslatable {
+            run.label("cli/compiled-out-untranslatable-field");
         }
         let text = std::fs::read_to_string(&out).unwrap_or_default();
         let got = match c.level {
